@@ -13,6 +13,7 @@ A_COMMON = [
 ]
 
 LEDGER = P + "ledger."
+GOV = P + "ctrlers/gov."
 A_STORE = [
     "A-IAVL: cosmos/iavl MutableTree + tm-db goleveldb behave as a versioned finite map (Get/Set/Remove/Has/Iterate ascending/SaveVersion v+1/Load latest/LazyLoadVersion(n<=0 -> latest, n>latest -> error)); root hash = injective function of the ordered write history; validated on every run by replaying sampled paths on the real goleveldb/iavl",
     "A-CODEC: json/proto/rlp Marshal = snapshot of exported fields (the repository's own Marshal*/Unmarshal* methods are executed), Unmarshal = fresh deep copy; decoding hostile concrete bytes returns an error",
@@ -78,10 +79,21 @@ CHECKS = {
         "outside": "atomicity of tempfile.WriteFileAtomic itself; key-file encryption; POLRound of proposals fixed to -1",
         "assumptions": ["the signing key is replaced by a counting identity-signer (crypto.PrivKey interface) so that signing events are observable", "A-CODEC for tmjson / protoio (canonical vote = tuple of its fields)", "tmtime.Now is a fixed instant (only used to blank timestamps before comparing)"],
     },
+    "C15": {
+        "quick": [
+            {"name": GOV + "ZZ_C15_G12", "reach": ["G12 accepted", "G12 rejected"], "bound": "2 validators (symbolic power) + 1 outsider as sender; symbolic start/period/applying heights and submission height; 0..2 options; symbolic governance parameters"},
+            {"name": GOV + "ZZ_C15_G34", "reach": ["G34 accepted", "G34 rejected"], "bound": "stored proposal: 2 voters (symbolic power, optional earlier vote, optional re-vote), 2 options; one voting tx with arbitrary sender / proposal reference / symbolic choice and height"},
+            {"name": GOV + "ZZ_C15_G567", "reach": ["G567 applied", "G567 nothing won", "G567 still open"], "bound": "proposal with 3 voters x 2 options (symbolic powers, votes, re-vote), optionally a second proposal due at the same height; EndBlock+Commit at a symbolic height before the applying height, then at the applying height"},
+        ],
+        "bounds": "<=3 voters, <=2 options, <=2 proposals; one life cycle (vote -> close -> apply -> commit)",
+        "outside": "the JSON documents of the options themselves (A-CODEC: an option is an arbitrary GovParams value with a chosen subset of fields set); ties between two options that both reach 2/3 (possible only when the recorded total power is < 2); proposals of non-GOVPARAMS type",
+        "assumptions": A_COMMON + A_STORE + ["A-GOV: active parameters non-zero and in sane ranges; MergeGovParams treats a zero field of an option as 'unset'"],
+    },
     "C14": {
         "quick": [
             {"name": STAKE + "ZZ_C14_S1", "reach": ["S1 end"], "bound": "<=3 stakes, symbolic powers in (0,2^55], ratio in [0,100]"},
             {"name": STAKE + "ZZ_C14_S3", "reach": ["S3 end"], "bound": "<=4 marks in (0,2^40), symbolic window"},
+            {"name": GOV + "ZZ_C14_S2", "reach": ["S2 end"], "bound": "one open proposal with 3 voters (symbolic power, optional vote, optional re-vote) and 2 options; evidence against voter 0/1/2 or a stranger; symbolic slash ratio"},
         ],
         "bounds": "S1: <=3 stakes per delegatee; S3: <=4 marks",
         "outside": "more stakes/marks than the bound; jailing branch and governance punishment are decided by S2/S4/S5 when registered",
